@@ -88,6 +88,7 @@ type w12Pkt struct {
 
 var errW12Reset = errors.New("w12: connection reset by peer")
 var errW12Refused = errors.New("w12: connection refused")
+var errW12DNS = errors.New("w12: resolver failure")
 
 type w12Timeout struct{}
 
@@ -514,6 +515,7 @@ const (
 
 type w12Addr struct {
 	mode          int
+	downForGood   bool // the upstream at this address went away for the rest of the run (never healed)
 	newConnManual bool
 	dials         int
 	refused       int
@@ -561,9 +563,21 @@ type w12World struct {
 	reportFrames  int
 	lastWriteErr  uint64
 	lastReconErr  uint64
+	lastDNSErr    uint64
+	dnsFailing    bool // the resolver fails (scheduler-controlled, through the verifhook.Resolve seam); guarded by mu
 }
 
 func (w *w12World) now() time.Duration { return time.Since(w.t0) }
+
+// resolve is the address-resolution seam: nil targets = resolve the configured list as usual.
+func (w *w12World) resolve(network, address string) ([]string, error) {
+	w.mu.Lock()
+	defer w.mu.Unlock()
+	if w.dnsFailing {
+		return nil, errW12DNS
+	}
+	return nil, nil
+}
 
 func (w *w12World) dial(network, addr string, timeout time.Duration) (net.Conn, error) {
 	<-w.startGate
@@ -858,6 +872,11 @@ func (w *w12World) observe() {
 		r.Event("balancer", "t=%v WriteErrors=%d", w.now(), we)
 		w.lastWriteErr = we
 	}
+	if de := w.eg.stats.dnsRefreshErrors.Load(); de != w.lastDNSErr {
+		r.Event("balancer", "t=%v DNSRefreshErrors=%d", w.now(), de)
+		r.Probe("dns_refresh_failed")
+		w.lastDNSErr = de
+	}
 	if re := w.eg.stats.reconnectErrors.Load(); re != w.lastReconErr {
 		r.Event("balancer", "t=%v ReconnectErrors=%d", w.now(), re)
 		w.lastReconErr = re
@@ -1073,7 +1092,7 @@ func w12Run(r *verifsim.Run) {
 		WriteTimeout:       w12Pick(r, "cfg.write_timeout", time.Duration(0), 4*time.Second, 30*time.Second),
 		DialTimeout:        w12Pick(r, "cfg.dial_timeout", time.Duration(0), 1500*time.Millisecond),
 		StuckReconDelay:    w12Pick(r, "cfg.stuck_recon_delay", time.Duration(0), 2*time.Second),
-		DNSRefreshInterval: w12Pick(r, "cfg.dns_refresh", 60*time.Second, 7*time.Second) + 137*time.Microsecond, // never coincides with reconnect instants
+		DNSRefreshInterval: w12Pick(r, "cfg.dns_refresh", 60*time.Second, 7*time.Second, 2500*time.Millisecond) + 137*time.Microsecond, // never coincides with reconnect instants
 		HostTag:            w12Pick(r, "cfg.host_tag", "w12-balancer", "", "balancer-host.w12.example"),
 	}
 	w.sockCap = w12Pick(r, "cfg.socket_buffer", 1<<20, 16384, 512, 64)
@@ -1125,6 +1144,7 @@ func w12Run(r *verifsim.Run) {
 	w.key = append(w.key, cfg.HostTag...)
 
 	verifhook.SetOnDial(w.dial)
+	verifhook.SetOnResolve(w.resolve)
 	started := false
 	defer func() {
 		// release the instance: no new connections, wake every blocked writer, stop all loops
@@ -1149,6 +1169,7 @@ func w12Run(r *verifsim.Run) {
 			cn.stopTimer()
 		}
 		verifhook.SetOnDial(nil)
+		verifhook.SetOnResolve(nil)
 		w.eg, w.h = nil, nil
 	}()
 
@@ -1190,6 +1211,8 @@ func w12Run(r *verifsim.Run) {
 		aDead
 		aTrap
 		aTrickle
+		aAddrDown
+		aDNS
 	)
 	for step := 0; step < nsteps && !r.Failed() && !w.disturbed; step++ {
 		acts := []int{aPush1, aSleep, aBurst, aPush1, aSleep, aBurst, aTrickle}
@@ -1209,7 +1232,7 @@ func w12Run(r *verifsim.Run) {
 					trappable = true
 				}
 			}
-			acts = append(acts, aHeal)
+			acts = append(acts, aHeal, aDNS)
 			if trappable {
 				acts = append(acts, aTrap)
 				if overload {
@@ -1219,6 +1242,11 @@ func w12Run(r *verifsim.Run) {
 		}
 		if faultClass >= 2 {
 			acts = append(acts, aAddr, aAddr)
+			// With four addresses each sender's half of the (reshuffled) list has two, so while only one
+			// address is gone for good every sender always has a live one to rotate to.
+			if len(w.addrs) == 4 && !w.anyDownForGood() {
+				acts = append(acts, aAddrDown)
+			}
 		}
 		if overload {
 			acts = append(acts, aBurst, aBurst)
@@ -1329,6 +1357,39 @@ func w12Run(r *verifsim.Run) {
 			w.pointFault()
 			r.Event("upstream", "t=%v c%d reset by upstream, %d unread bytes discarded", w.now(), cn.id, unread)
 			w.tick(0)
+		case aDNS:
+			// Not an upstream fault: a failed refresh must leave the last good addresses in use, so
+			// nothing is excused and no timing demand is lifted while the resolver fails (it is never healed).
+			r.Sched("dns", "resolver")
+			w.mu.Lock()
+			w.dnsFailing = !w.dnsFailing
+			failing := w.dnsFailing
+			w.mu.Unlock()
+			if failing {
+				r.Fault("resolver_fails")
+			}
+			r.Event("resolver", "t=%v address resolution now %s", w.now(), map[bool]string{false: "works", true: "fails"}[failing])
+			w.tick(0)
+		case aAddrDown:
+			a := w.addrs[c.Intn(len(w.addrs), "addr_down.which")]
+			r.Sched("addr_down", "upstream")
+			w.mu.Lock()
+			st := w.addrSt[a]
+			st.mode, st.newConnManual, st.downForGood = w12AddrRefuse, false, true
+			w.mu.Unlock()
+			nreset := 0
+			for _, cn := range w.openConns() {
+				if cn.addr == a {
+					cn.reset()
+					nreset++
+				}
+			}
+			r.Fault("upstream_address_down_for_good")
+			w.faultsFired++
+			w.pointFault()
+			r.Event("upstream", "t=%v %s goes away for the rest of the run: refuses dials, %d connection(s) reset", w.now(), a, nreset)
+			w.noteHealth()
+			w.tick(0)
 		case aAddr:
 			a := w.addrs[c.Intn(len(w.addrs), "addr.which")]
 			mode := c.Intn(3, "addr.mode")
@@ -1336,6 +1397,12 @@ func w12Run(r *verifsim.Run) {
 			r.Sched("addr", "upstream")
 			w.mu.Lock()
 			st := w.addrSt[a]
+			if st.downForGood {
+				w.mu.Unlock()
+				r.Event("upstream", "t=%v %s stays down", w.now(), a)
+				w.tick(0)
+				continue
+			}
 			st.mode, st.newConnManual = mode, manual
 			w.mu.Unlock()
 			if mode != w12AddrUp || manual {
@@ -1385,6 +1452,14 @@ func w12Run(r *verifsim.Run) {
 				break
 			}
 		}
+		if w.anyDownForGood() {
+			r.Probe("run_ends_with_an_address_down_for_good")
+		}
+		w.mu.Lock()
+		if w.dnsFailing {
+			r.Probe("run_ends_with_resolver_failing")
+		}
+		w.mu.Unlock()
 		r.Event("sim", "t=%v silence for %v", w.now(), quiet)
 		for i := 0; i < 4 && !r.Failed(); i++ {
 			w.tick(quiet / 4)
@@ -1399,7 +1474,12 @@ func w12Run(r *verifsim.Run) {
 
 func (w *w12World) heal() {
 	w.mu.Lock()
+	down := 0
 	for _, a := range w.addrs {
+		if w.addrSt[a].downForGood {
+			down++
+			continue
+		}
 		w.addrSt[a].mode, w.addrSt[a].newConnManual = w12AddrUp, false
 	}
 	w.mu.Unlock()
@@ -1407,8 +1487,19 @@ func (w *w12World) heal() {
 		cn.arm(false)
 		cn.setFast(true)
 	}
-	w.r.Event("upstream", "t=%v healed: all addresses up, all live connections read fast", w.now())
+	w.r.Event("upstream", "t=%v healed: all addresses up (%d gone for good stay down), all live connections read fast", w.now(), down)
 	w.noteHealth()
+}
+
+func (w *w12World) anyDownForGood() bool {
+	w.mu.Lock()
+	defer w.mu.Unlock()
+	for _, a := range w.addrs {
+		if w.addrSt[a].downForGood {
+			return true
+		}
+	}
+	return false
 }
 
 // addressless: the sender's address pool is empty (a single resolved address leaves the secondary so).
@@ -1422,7 +1513,10 @@ func (w *w12World) addressless(s *tcpSender) bool {
 // upstream address (white-box): nothing will ever write them anywhere.
 func (w *w12World) strandedPackets() map[int]bool {
 	out := map[int]bool{}
-	for _, s := range []*tcpSender{w.eg.pool.primary, w.eg.pool.secondary} {
+	if len(w.addrs) != 1 {
+		return out // the recorded finding is about a single resolved address only
+	}
+	for _, s := range []*tcpSender{w.eg.pool.secondary} {
 		if !w.addressless(s) {
 			continue
 		}
